@@ -134,6 +134,8 @@ def run_in_module(doc, stmts, enabled, idx, tmp):
     from xdoctest import core
     names = sorted({BOUND[s.kind][0] % s.k for s in stmts if s.kind in BOUND})
     globs = '\n'.join("%s = 'MODULE'" % n for n in names)
+    # ordinary module globals that happen to be called like __future__ features: they switch nothing on
+    globs += "\nannotations = {'k': 1}\ndivision = 'north'\ndef generators():\n    return []\n"
     # (tabs are expanded first: prefixing a tab-indented line with four blanks would change its column)
     body = '\n'.join('    ' + l if l else l for l in doc.expandtabs().split('\n'))
     src = MODULE_TMPL % (gendoc.PRELUDE, globs, body)
@@ -275,7 +277,7 @@ def _worker2(cases, tmp):
             if bind != pbind:
                 diff = sorted(set(bind.items()) ^ set(pbind.items()))[:6]
                 problems.append('final bindings differ: %r' % (diff,))
-        if any(st.kind == 'readback' for st in stmts) and not doc.startswith('Summary'):
+        if any(st.kind in ('readback', 'annotated_def') for st in stmts) and not doc.startswith('Summary'):
             try:
                 mp, _src = run_in_module(doc, stmts, enabled, abs(hash(doc)) % 10 ** 9, tmp)
                 problems += mp
